@@ -409,6 +409,12 @@ func (s *QueryVisitor) EnterOC_RegularQuery(ctx *parser.OC_RegularQueryContext) 
 }
 
 func (s *QueryVisitor) EnterOC_SingleQuery(ctx *parser.OC_SingleQueryContext) {
+	// A single query may be reached without a regular query above it, e.g. through the (unsupported) bulk import
+	// rule; the unsupported rule error has been recorded by then but the walk continues.
+	if s.Query == nil {
+		s.Query = cypher.NewRegularQuery()
+	}
+
 	s.Query.SingleQuery = cypher.NewSingleQuery()
 }
 
